@@ -462,6 +462,12 @@ func e2eRetransWorker(args []string) error {
 				return fail("the agent never reconnected to the datapath")
 			}
 
+			// what the agent writes on reconnecting is not the next request's doing: a heartbeat step records the datapath first
+			w.DpIdle(100*time.Millisecond, 3*time.Second)
+			w.Heartbeat(a)
+
+			// b's association was refused: whatever b sends next on the same connection, it is not associated
+			w.Estab(b, simpleSession(uint64(rng.Int63()), uint32(0x0AD90001+round), 1))
 			w.Assoc(b)
 			w.Release(a)
 			w.Release(b)
